@@ -158,6 +158,75 @@ func checkParserModel(c *Ctx) {
 			fmt.Printf("DRIFT parser model: %s %s\n", m[3], strings.Join(strings.Fields(m[4]), " "))
 		}
 	}
+	// every token string (mostly ill-formed): same accept / reject, same tree
+	maxLen := 6
+	if !c.Quick() {
+		maxLen = 7
+	}
+	nall, driftAll := 0, 0
+	if fam, ok := cachedGenModule(c, "GenCond", map[string]int{"MaxLen": maxLen}, "conds.ndjson"); ok {
+		var nd2 NDJSON
+		sym := []string{"(", ")", "&&", "||", "!"}
+		srcOf := map[string]string{}
+		for i, ln := range fam["conds.ndjson"] {
+			var w []int
+			if jsonUnmarshal([]byte(ln), &w) != nil {
+				c.Fatal("bad GenCond line")
+				return
+			}
+			toks := []string{"("}
+			var sb strings.Builder
+			sb.WriteString("( ")
+			nleaf := 0
+			for _, x := range w {
+				if x == 6 {
+					nleaf++
+					name := fmt.Sprintf("L%d", nleaf)
+					toks = append(toks, name)
+					sb.WriteString("flag(" + name + ") ")
+				} else {
+					toks = append(toks, sym[x-1])
+					sb.WriteString(sym[x-1] + " ")
+				}
+			}
+			src := "script S { if " + sb.String() + "{ yes } }\n"
+			var real ptree
+			func() {
+				defer func() {
+					if recover() != nil {
+						real = ptree{"k": "panic"}
+					}
+				}()
+				prog, err := parser.New(lexer.New(src), parser.CommandConfig{}, "", "", 0, nil).ParseProgram()
+				if err != nil {
+					real = ptree{"k": "error"}
+					return
+				}
+				ifs := prog.TopLevelStatements[0].(*ast.ScriptStatement).Body.Statements[0].(*ast.IfStatement)
+				real = realTree(ifs.Consequence.Expression)
+			}()
+			id := fmt.Sprintf("w%d", i)
+			srcOf[id] = src
+			nd2.Add(map[string]interface{}{"id": id, "toks": toks, "real": real})
+			nall++
+		}
+		res2, err := RunTLC("parserall", TLCJob{Module: "ParserAll", Cfg: "ParserAll.cfg", Data: map[string][]byte{"parserall.ndjson": nd2.Bytes()},
+			Workers: c.Workers, Timeout: 30 * time.Minute, HeapGB: 10})
+		if err != nil || !res2.Clean() {
+			c.Fatal("ParserAll run failed: %v\n%s", err, tail(res2.Output, 3000))
+			return
+		}
+		for _, m := range reCaseFlag.FindAllStringSubmatch(res2.Output, -1) {
+			driftAll++
+			if driftAll <= 8 {
+				fmt.Printf("DRIFT parser model (all token strings): %s  %s  model: %s\n", m[3], strings.TrimSpace(srcOf[m[3]]), strings.Join(strings.Fields(m[4]), " "))
+			}
+		}
+		c.Cov("token_strings", int64(nall))
+		c.Cov("states", res.Distinct+res2.Distinct)
+	}
+	fmt.Printf("parsermodel: %d token strings of length <= %d over ( ) && || ! leaf; accept/reject or tree differs between model and real parser: %d\n", nall, maxLen, driftAll)
+	conform += driftAll
 	fmt.Printf("parsermodel: %d conditions; model tree not equivalent to the written expression: %d; real parser's tree differs from the model's: %d\n", n, design, conform)
 	c.CovSet("explanation", fmt.Sprintf("ParserModel.tla on %d conditions (all GenExpr shapes <= 4 leaves, minimal and redundant parentheses): design mismatches %d, conformance mismatches %d", n, design, conform))
 	c.Cov("evaluations", int64(n))
